@@ -217,6 +217,77 @@ def local_correspond(ctx, impl):
                      replay=dict(ops=ops, model=m, impl=o), has_input=False)
 
 
+def tubs_family(ctx, impl):
+    rng = ctx.rng
+    for i in range(ctx.n(24, 400)):
+        plan = "".join(rng.choice("ppgs") for _ in range(rng.randint(3, 7)))
+        if i % 4 == 0:
+            plan = "g" + plan[1:]
+        reach = rng.random() < 0.8
+        cs = rng.choice((None, [1, 2, 3], [7, 50], [1], [13, 200]))
+        seed = rng.randrange(1 << 30)
+        import random as _random
+        r = impl.run_tubs(plan, _random.Random(seed), cs, reach)
+        case = dict(family="tubs", plan=plan, chunk_sizes=cs, c_reachable=reach, seed=seed)
+        if "setup_failed" in r:
+            ctx.fail("harness-inconsistency", "tubs: setup failed %r" % r, replay=case, has_input=False)
+            continue
+        ctx.case(case, nontrivial=("g" in plan or "s" in plan))
+        ctx.hist("tubs_plan_len", len(plan))
+        ctx.hist("tubs_gifts", plan.count("g"))
+        ent = r["entered"]
+        want = [c for c, k in enumerate(plan) if reach or k != "g"]
+        if len(set(ent)) != len(ent):
+            ctx.fail("oracle/duplicate-entry", "real Tubs: a call was entered more than once: %r (%r)" % (ent, case), replay=dict(case, **r))
+        elif ent != sorted(ent):
+            ctx.fail("oracle/order", "real Tubs: calls issued 0..%d were entered in the order %r (%r)" % (len(plan) - 1, ent, case),
+                     replay=dict(case, **r))
+        elif ent != want:
+            ctx.fail("oracle/lost-call", "real Tubs: entered %r, expected %r (%r)" % (ent, want, case), replay=dict(case, **r))
+        bad = [c for c in ent if r["results"].get(c) != c]
+        if bad:
+            ctx.fail("oracle/wrong-answer", "real Tubs: calls %r entered but answered %r (%r)" % (bad, r["results"], case),
+                     replay=dict(case, **r))
+    ctx.sample(dict(tubs_case=case, entered=ent))
+
+
+def unit_facts(ctx, impl):
+    """each translated shape fact, measured on the real class and evaluated in the model's queue primitives"""
+    ns = list(range(0, 6))
+    body = """
+Definition put_all {A} (p : push_end) (l : list A) : list A := fold_left (fun q x => q_put p x q) l [].
+Fixpoint drain {A} (p : pop_end) (fuel : nat) (q : list A) : list A :=
+  match fuel with 0 => [] | S f => match q_take p q with None => [] | Some (x, r) => x :: drain p f r end end.
+Definition rest1 {A} (p : pop_end) (q : list A) : list A := match q_take p q with None => q | Some (_, r) => r end.
+Definition batch (l : list nat) := match evq_iter with IterForward => l | IterReverse => rev l end.
+Definition facts (n : nat) :=
+  (put_all sendq_push (seq 0 n), drain sendq_pop n (put_all sendq_push (seq 0 n)),
+   (batch (put_all evq_push (seq 0 n)), batch (put_all evq_push (map (fun j => 100 + j) (batch (put_all evq_push (seq 0 n)))))),
+   (put_all inq_push (seq 0 n), rest1 inq_pop (put_all inq_push (seq 0 n)),
+    match head_of_line with HolBlocking => rest1 inq_pop (put_all inq_push (seq 0 n))
+                          | HolNone => rest1 inq_pop (rest1 inq_pop (put_all inq_push (seq 0 n))) end)).
+Eval vm_compute in map facts %s.
+Eval vm_compute in send_idle_before_enqueue.
+""" % coq_list(ns)
+    try:
+        vals, idle = ctx.coq_eval("C04_facts", body, requires=REQ)
+    except common.CoqEvalError as e:
+        ctx.fail("correspondence-broken", "the shape facts could not be evaluated: " + str(e)[-1500:], has_input=False)
+        return
+    for n, m in zip(ns, vals):
+        o = impl.measure_disciplines(n)
+        mm = dict(sendq_layout=m[0], sendq_drain=m[1], evq_batch1=m[2][0], evq_batch2=m[2][1],
+                  inq_layout=m[3][0], inq_first=m[3][1], inq_second=m[3][2])
+        ctx.case(["facts", n], nontrivial=n >= 2)
+        for k, v in mm.items():
+            if list(v) != o[k]:
+                ctx.fail("correspondence/shape-fact", "translated discipline %s for %d items: model %r, real class %r" % (k, n, v, o[k]),
+                         replay=dict(n=n, fact=k, model=v, impl=o[k]), has_input=False)
+        if n == 1 and (o["idle_wakes"] != bool(idle) or o["busy_wakes"]):
+            ctx.fail("correspondence/shape-fact", "RootSlicer.send wake-up: idle sender woken=%r (model %r), busy sender woken=%r"
+                     % (o["idle_wakes"], idle, o["busy_wakes"]), replay=dict(measured=o, model_idle=idle), has_input=False)
+
+
 # ------------------------------------------------------------------ entry point
 def run(ctx):
     ctx.rule = ("a scenario is a script of issue (plain / streaming argument that pauses on 1-3 Deferreds / third-party "
@@ -289,6 +360,8 @@ def run(ctx):
         r = do("random-%d" % i, sc)
         if i < 3:
             ctx.sample(dict(script=sc, entered=[[c for e, c in r["events"][d] if e == "entered"] for d in (0, 1)]))
+    # 3b. real Tubs on the in-memory network, real third-party references (Tub.getReference to a third Tub)
+    tubs_family(ctx, impl)
     # 4. correspondence
     model_ok = ok
     if not ok:
@@ -296,6 +369,7 @@ def run(ctx):
     if model_ok:
         correspond(ctx, runs)
         local_correspond(ctx, impl)
+        unit_facts(ctx, impl)
     else:
         ctx.note("model does not build: correspondence skipped")
     if not ok and len(ctx.failures) == before:
